@@ -19,6 +19,7 @@ breakpoints" is decided by congruence: the expected result is written with the s
 (map over the pieces; for integrals the running knot (end_i, EV1(F_i, end_i))) and z3 decides equality of every number.
 The piece-level operations themselves are the subject of C07/C08/C14 and are decided there on the real kernels.
 """
+import time
 import z3
 
 import api
@@ -154,6 +155,7 @@ def run(e, op, n, segment_level=False):
     """-> (paths, expected numbers, symbols).  Each path's result is the flat list of result numbers (or None on panic)."""
     dom = FPDomain()
     it = Interp(e.program, dom, max_paths=64)
+    it.deadline = time.time() + (120 if getattr(e, "tier", "quick") == "quick" else 600)
     install_stubs(it, dom)
     ends = [sym("e%d" % i) for i in range(n)]
     cs = [sym("c%d" % i) for i in range(n)]
